@@ -202,6 +202,29 @@ func c07ProbePayload() []byte {
 	return c07Probe
 }
 
+var c07ProbeFar []byte
+
+// c07ProbeFarPayload: the first 300 bytes of a 600-byte pseudo-random dictionary compressed against
+// that dictionary: its matches lie 600 bytes back, beyond the ten bytes of history of openProbe2.
+func c07ProbeFarPayload() []byte {
+	if c07ProbeFar == nil {
+		dict := make([]byte, 600)
+		x := uint32(2463534242)
+		for i := range dict {
+			x ^= x << 13
+			x ^= x >> 17
+			x ^= x << 5
+			dict[i] = byte(x>>8) | 0x80 // never 'Q'
+		}
+		var b bytes.Buffer
+		w, _ := flate.NewWriterDict(&b, flate.BestCompression, dict)
+		w.Write(dict[:300])
+		w.Flush()
+		c07ProbeFar = bytes.TrimSuffix(b.Bytes(), []byte{0, 0, 0xff, 0xff})
+	}
+	return c07ProbeFar
+}
+
 func c07Do(st *c07State, k connCfg, op string) {
 	tag := op[0]
 	act := op[2:]
@@ -213,7 +236,10 @@ func c07Do(st *c07State, k connCfg, op string) {
 		}
 		return
 	}
-	if act == "openProbe" {
+	if act == "openProbe" || act == "openProbe2" {
+		// (openProbe2: the probing message is the connection's second compressed message, behind
+		// a first one of ten bytes: the connection has a history of its own, only shorter than the
+		// distances of the probe)
 		// a fresh connection whose peer's first compressed message refers back
 		// beyond the start of its own stream: a correct receiver has no history and
 		// must fail; whatever it returns must not be another connection's data
@@ -222,8 +248,20 @@ func c07Do(st *c07State, k connCfg, op string) {
 		}
 		x = &c07Conn{tag: tag, p: vpipe.New(), msgLen: c07MsgLen}
 		x.p.In = peerFrame(k, frame.Frame{Fin: true, Rsv1: true, Opcode: frame.OpText, Payload: c07ProbePayload()})
+		if act == "openProbe2" {
+			x.p.In = peerFrame(k, frame.Frame{Fin: true, Rsv1: true, Opcode: frame.OpText, Payload: c07ProbeFarPayload()})
+			first := (&deflate.Deflater{NoContextTakeover: k.readerNoTakeover()}).Message(bytes.Repeat([]byte{'Q'}, 10))
+			x.p.In = append(peerFrame(k, frame.Frame{Fin: true, Rsv1: true, Opcode: frame.OpText, Payload: first}), x.p.In...)
+		}
 		x.c = mkConn(x.p, k)
 		st.conns[tag] = x
+		if act == "openProbe2" {
+			_, b, err := x.c.Read(vctx.Background())
+			if err != nil || string(b) != "QQQQQQQQQQ" {
+				st.leaks = append(st.leaks, fmt.Sprintf("%c.openProbe2: the connection's first (valid, 10-byte) message was read as %q, err=%v", tag, b, err))
+				return
+			}
+		}
 		_, r, err := x.c.Reader(vctx.Background())
 		if err == nil {
 			buf := make([]byte, 64)
@@ -976,6 +1014,7 @@ func c07Scenarios(tier string) []scenario {
 			next := "ABC"[len(opened)]
 			gen(append(cur, string(next)+".open"), opened+string(next))
 			gen(append(cur, string(next)+".openProbe"), opened+string(next))
+			gen(append(cur, string(next)+".openProbe2"), opened+string(next))
 		}
 		for _, t := range opened {
 			for _, a := range acts {
